@@ -1302,6 +1302,10 @@ class Container:
                 except ValueError:
                     raise ValueError(f"Invalid concentration. ({c})")
 
+                if denominator == 'U' and isinstance(original_solvent, Container) and any(
+                        held.is_enzyme() and amount > 0 for held, amount in original_solvent.contents.items()):
+                    # (the solvent portion is taken to carry no activity - as for a total in U below)
+                    raise ValueError("Solution is impossible to create. (The solvent container holds an enzyme.)")
                 if denominator not in bottom_arrays:
                     bottom = numpy.array(list(convert_one(substance, denominator) for substance in solute + [solvent]))
                     bottom_arrays[denominator] = bottom
